@@ -10,7 +10,7 @@ def collect(ctx, res, want="C14"):
     evs += [e for e in mk if e["ev"] == "out"]
     # items whose links / attributes carry encoded payloads (styling must stay exactly what was applied)
     from checks import c01
-    evs += [dict(e) for e in c01.sanitize_events(ctx, res, only=("link_url", "html_attr", "id_host", "html_text", "status_line_inline", "header_value_inline", "location_host_inline")) if e["ev"] == "out"]
+    evs += [dict(e) for e in c01.sanitize_events(ctx, res, only=("link_url", "html_attr", "id_host", "html_text", "json_field", "status_line_inline", "header_value_inline", "location_host_inline")) if e["ev"] == "out"]
     for e in evs:
         e.setdefault("ops", [])
         e["chk"] = [c for c in e["chk"] if c in ("noctl", "neutral")]
